@@ -75,7 +75,7 @@ type vSigOps[T comparable, C any] struct {
 	abs     func(T) []int64
 	enc     func(T) []byte
 	write   func(T, vWr) bool // returns whether a pdata mutator was reached; may panic
-	mkCons  func(mut bool, fn func(context.Context, T) error) C
+	mkCons  func(opts []bool, fn func(context.Context, T) error) C // opts: the MutatesData values of the WithCapabilities options, in order
 	newFan  func([]C) C
 	consume func(context.Context, C, T) error
 	caps    func(C) bool
@@ -144,9 +144,9 @@ var vLogs = vSigOps[plog.Logs, consumer.Logs]{
 		}
 		return true
 	},
-	mkCons: func(mut bool, fn func(context.Context, plog.Logs) error) consumer.Logs {
+	mkCons: func(opts []bool, fn func(context.Context, plog.Logs) error) consumer.Logs {
 		c, err := consumer.NewLogs(func(ctx context.Context, ld plog.Logs) error { return fn(ctx, ld) },
-			consumer.WithCapabilities(consumer.Capabilities{MutatesData: mut}))
+			vCapOpts(opts)...)
 		if err != nil {
 			panic(err)
 		}
@@ -220,9 +220,9 @@ var vMetrics = vSigOps[pmetric.Metrics, consumer.Metrics]{
 		}
 		return true
 	},
-	mkCons: func(mut bool, fn func(context.Context, pmetric.Metrics) error) consumer.Metrics {
+	mkCons: func(opts []bool, fn func(context.Context, pmetric.Metrics) error) consumer.Metrics {
 		c, err := consumer.NewMetrics(func(ctx context.Context, md pmetric.Metrics) error { return fn(ctx, md) },
-			consumer.WithCapabilities(consumer.Capabilities{MutatesData: mut}))
+			vCapOpts(opts)...)
 		if err != nil {
 			panic(err)
 		}
@@ -299,9 +299,9 @@ var vTraces = vSigOps[ptrace.Traces, consumer.Traces]{
 		}
 		return true
 	},
-	mkCons: func(mut bool, fn func(context.Context, ptrace.Traces) error) consumer.Traces {
+	mkCons: func(opts []bool, fn func(context.Context, ptrace.Traces) error) consumer.Traces {
 		c, err := consumer.NewTraces(func(ctx context.Context, td ptrace.Traces) error { return fn(ctx, td) },
-			consumer.WithCapabilities(consumer.Capabilities{MutatesData: mut}))
+			vCapOpts(opts)...)
 		if err != nil {
 			panic(err)
 		}
@@ -376,9 +376,9 @@ var vProfiles = vSigOps[pprofile.Profiles, xconsumer.Profiles]{
 		}
 		return true
 	},
-	mkCons: func(mut bool, fn func(context.Context, pprofile.Profiles) error) xconsumer.Profiles {
+	mkCons: func(opts []bool, fn func(context.Context, pprofile.Profiles) error) xconsumer.Profiles {
 		c, err := xconsumer.NewProfiles(func(ctx context.Context, pd pprofile.Profiles) error { return fn(ctx, pd) },
-			consumer.WithCapabilities(consumer.Capabilities{MutatesData: mut}))
+			vCapOpts(opts)...)
 		if err != nil {
 			panic(err)
 		}
@@ -623,6 +623,32 @@ func vShapeProfiles(e pprofile.ResourceProfiles, k, shape int) {
 	}
 }
 
+// the WithCapabilities options of a consumer, in order (the last one wins; none = non-mutating)
+func vCapOpts(opts []bool) []consumer.Option {
+	r := make([]consumer.Option, len(opts))
+	for i, b := range opts {
+		r[i] = consumer.WithCapabilities(consumer.Capabilities{MutatesData: b})
+	}
+	return r
+}
+
+// vOptsFor: an option list whose effective capability is mut, chosen by the consumer's position (so a case
+// replays from its term alone): a single option | an earlier contrary option overridden | two overrides | default
+func vOptsFor(mut bool, i, n int) []bool {
+	switch (i + n) % 4 {
+	case 1:
+		return []bool{!mut, mut}
+	case 2:
+		return []bool{mut, !mut, mut}
+	case 3:
+		if !mut {
+			return nil // no WithCapabilities at all: the default
+		}
+		return []bool{false, false, true}
+	}
+	return []bool{mut}
+}
+
 func vMark(v interface{ Int() int64 }, ok bool) int64 {
 	if !ok {
 		return -1
@@ -783,7 +809,7 @@ func vRunFan[T comparable, C any](ops vSigOps[T, C], out *vOut, cs vFanCase) {
 	cons := make([]C, n)
 	for i := 0; i < n; i++ {
 		i := i
-		cons[i] = ops.mkCons(cs.caps[i], func(cctx context.Context, p T) error {
+		cons[i] = ops.mkCons(vOptsFor(cs.caps[i], i, n), func(cctx context.Context, p T) error {
 			called[i]++
 			handles[i] = p
 			callOrder = append(callOrder, i)
